@@ -12,10 +12,14 @@ EXTENDS WorldC02, Arith, Lang, Json, FiniteSets
 VARIABLES kind, exprs, wop, wlit, style, lits, phase
 vars == <<kind, exprs, wop, wlit, style, lits, phase>>
 
+Big15(i, nm, sz, szn) == N(i, 0, "file", nm, <<>>, 420, 0, 0, T0 + i, 0, -3) @@ [bigsize |-> sz, bign |-> szn]
 F15(i, nm, sz, lt) == N(i, 0, "file", nm, Runs(sz, 0), 420, 0, 0, T0 + i, lt, -3)
 W15 == [nodes |-> << F15(1, <<"a","a">>, 12, 0), F15(2, <<"b","b","b">>, 7, 0), F15(3, <<"c","c">>, 7, 2),
                      F15(4, <<"d","d","d","d">>, 100, 0), F15(5, <<"e">>, 0, 0), F15(6, <<"f","f","f","f","f">>, 3, 0),
                      [F15(7, <<"g","g">>, 0, 0) EXCEPT !.content = Runs(5, 3)] >>]
+(* the same tree with sparse files whose sizes differ by one in the ninth digit (for comparisons between large values) *)
+W15b == [nodes |-> W15.nodes \o << Big15(8, <<"h","8">>, "99999999", 99999999), Big15(9, <<"h","9">>, "100000000", 100000000),
+                                    Big15(10, <<"h","1","0">>, "100000001", 100000001) >>]
 
 Leaves6 == {"2", "3", "10", "size", "hardlinks", "length(name)"}
 Leaves3 == {"2", "3", "size"}
@@ -51,6 +55,10 @@ ChoosePairBr == /\ phase = "start" /\ kind' = "pairbr"
 ChooseWhere == /\ phase = "start" /\ kind' = "where"
                /\ \E e \in One \cup Negs : exprs' = <<e>>
                /\ wop' \in {"gt", "eq", "lte"} /\ wlit' \in {0, 5, 14, 24, 0 - 5, 0 - 14} /\ style' = "min" /\ phase' = "done"
+(* comparisons between large values that differ by one (equality is exact whatever the magnitude) *)
+ChooseBigWhere == /\ phase = "start" /\ kind' = "where"
+                  /\ exprs' \in { << <<"+", "size", "0">> >>, << <<"*", "size", "1">> >>, << <<"-", "size", "1">> >>, << <<"+", "size", "1">> >> }
+                  /\ wop' \in {"eq", "ne", "gt", "lte"} /\ wlit' \in {100000000, 99999999} /\ style' = "min" /\ phase' = "done"
 Lists == { << <<"+", "size", "1">>, <<"-", "size", "1">>, <<"*", "size", "2">>, <<"neg", "size">>, <<"+", "*", "2", "3", "4">> >>,
            << <<"+", "*", "2", "3", "4">>, <<"neg", "size">>, <<"*", "size", "2">>, <<"-", "size", "1">>, <<"+", "size", "1">> >>,
            << <<"*", "+", "2", "3", "4">>, <<"+", "2", "*", "3", "4">>, <<"%", "size", "5">>, <<"/", "size", "1">>, <<"size">> >>,
@@ -75,7 +83,7 @@ ChooseBig == /\ phase = "start" /\ kind' = "bigproduct" /\ exprs' = <<>> /\ lits
 ChooseKeyText == /\ phase = "start" /\ kind' \in {"keytext-after", "keytext-before"}
                  /\ exprs' = << <<"size">>, <<"+", "size", "1">>, <<"length(name)">>, <<"hardlinks">> >> /\ lits' = KeyTexts
                  /\ style' = "min" /\ wop' = "" /\ wlit' = 0 /\ phase' = "done"
-Next == ((ChooseOne \/ ChooseTight \/ ChoosePairOp \/ ChoosePairBr \/ ChooseWhere \/ ChooseList) /\ lits' = <<>>) \/ ChooseKeyText \/ ChooseArgText \/ ChooseBig
+Next == ((ChooseOne \/ ChooseTight \/ ChooseBigWhere \/ ChoosePairOp \/ ChoosePairBr \/ ChooseWhere \/ ChooseList) /\ lits' = <<>>) \/ ChooseKeyText \/ ChooseArgText \/ ChooseBig
 Spec == Init /\ [][Next]_vars
 
 RECURSIVE ColsText(_)
@@ -89,7 +97,7 @@ NegOnColumn == \E j \in 1 .. Len(exprs) : \E i \in 1 .. Len(exprs[j]) - 1 :
                   exprs[j][i] = "neg" /\ exprs[j][i + 1] \in {"size", "hardlinks", "length(name)"}
 NegOnBracket == \E j \in 1 .. Len(exprs) : \E i \in 1 .. Len(exprs[j]) - 1 : exprs[j][i] = "neg" /\ exprs[j][i + 1] \in BinOps
 BareLiteral == kind = "where" /\ exprs[1][1] = "neg" /\ \A i \in 1 .. Len(exprs[1]) : exprs[1][i] \in {"neg", "2", "3", "10"}      \* a negated literal: no column, no operator
-Class == kind \o (IF BareLiteral THEN "/bare-literal" ELSE "") \o (IF NegOnColumn THEN "/minus-column" ELSE "") \o (IF NegOnBracket THEN "/minus-bracket" ELSE "")
+Class == kind \o (IF kind = "where" /\ wlit > 1000 THEN "/large" ELSE "") \o (IF BareLiteral THEN "/bare-literal" ELSE "") \o (IF NegOnColumn THEN "/minus-column" ELSE "") \o (IF NegOnBracket THEN "/minus-bracket" ELSE "")
          \o (IF HasTok("neg") /\ ~NegOnColumn /\ ~NegOnBracket THEN "/minus-number" ELSE "") \o "/" \o style
 Query == IF kind = "where"
          THEN "select path from '.' where " \o ArithText(exprs[1], style) \o " " \o OpText(wop) \o " " \o ToString(wlit) \o " into list"
@@ -97,9 +105,9 @@ Query == IF kind = "where"
          ELSE IF kind = "argtext" THEN "select path, concat('a, b'), concat('a', 'b'), concat('a, b') from '.' into list"
          ELSE IF kind = "keytext-before" THEN "select path" \o LitsText(1) \o ColsText(1) \o " from '.' into list"
          ELSE "select path" \o ColsText(1) \o LitsText(1) \o " from '.' into list"
-Scenario == [prop |-> "C15", world |-> "W15", class |-> Class, kind |-> kind, exprs |-> exprs, wop |-> wop, wlit |-> wlit, lits |-> lits,
+Scenario == [prop |-> "C15", world |-> (IF kind = "where" /\ wlit > 1000 THEN "W15b" ELSE "W15"), class |-> Class, kind |-> kind, exprs |-> exprs, wop |-> wop, wlit |-> wlit, lits |-> lits,
              env |-> [tz |-> "UTC", cwd |-> 0],
              runs |-> << [tag |-> "q", ncols |-> IF kind = "where" THEN 1 ELSE IF kind = "bigproduct" THEN 2 ELSE 1 + Len(exprs) + Len(lits), chars |-> TRUE, argv |-> << Query >>] >>]
-EmitWorld == (phase = "start") => PrintT(<<"WORLD", ToJson([key |-> "W15", world |-> W15])>>)
+EmitWorld == (phase = "start") => PrintT(<<"WORLD", ToJson([key |-> "W15", world |-> W15])>>) /\ PrintT(<<"WORLD", ToJson([key |-> "W15b", world |-> W15b])>>)
 Emit == phase = "done" => PrintT(<<"REPLAY", ToJson(Scenario)>>)
 =============================================================================
